@@ -127,22 +127,24 @@ def FrontClean (f : Front) : Prop :=
 
 /-- a front connection none of whose goroutines can move, after the transport has exited -/
 theorem front_quiescent (c : Ctx) (f : Front) (ht : c.trDone = true) (hi : FInv f)
-    (hq : ∀ e, e ≠ .arrive → e ≠ .clientData → e ≠ .clientClose → frontStep Facts.good c f e = none) :
+    (hq : ∀ e, e ≠ .arrive → e ≠ .clientData → e ≠ .clientClose → e ≠ .sideArrive →
+      frontStep Facts.good c f e = none) :
     FrontClean f := by
   obtain ⟨i1, i2, i3⟩ := hi
-  have q2 := hq .lookup (by simp) (by simp) (by simp)
-  have q3 := hq .dialErr (by simp) (by simp) (by simp)
-  have q4 := hq .frontGone (by simp) (by simp) (by simp)
-  have q5 := hq .upWriteErr (by simp) (by simp) (by simp)
-  have q6 := hq .downReadErr (by simp) (by simp) (by simp)
-  have q7 := hq .downWriteDone (by simp) (by simp) (by simp)
-  have q8 := hq .caStart (by simp) (by simp) (by simp)
-  have q9 := hq .caTunnelErr (by simp) (by simp) (by simp)
-  have q10 := hq .upExit (by simp) (by simp) (by simp)
-  have q11 := hq .downExit (by simp) (by simp) (by simp)
-  have q12 := hq .joinReturn (by simp) (by simp) (by simp)
-  have q13 := hq .finishErr (by simp) (by simp) (by simp)
-  simp only [frontStep, ht] at q2 q3 q4 q5 q6 q7 q8 q9 q10 q11 q12 q13
+  have q2 := hq .lookup (by simp) (by simp) (by simp) (by simp)
+  have q3 := hq .dialErr (by simp) (by simp) (by simp) (by simp)
+  have q4 := hq .frontGone (by simp) (by simp) (by simp) (by simp)
+  have q5 := hq .upWriteErr (by simp) (by simp) (by simp) (by simp)
+  have q6 := hq .downReadErr (by simp) (by simp) (by simp) (by simp)
+  have q7 := hq .downWriteDone (by simp) (by simp) (by simp) (by simp)
+  have q8 := hq .caStart (by simp) (by simp) (by simp) (by simp)
+  have q9 := hq .caTunnelErr (by simp) (by simp) (by simp) (by simp)
+  have q10 := hq .upExit (by simp) (by simp) (by simp) (by simp)
+  have q11 := hq .downExit (by simp) (by simp) (by simp) (by simp)
+  have q12 := hq .joinReturn (by simp) (by simp) (by simp) (by simp)
+  have q13 := hq .finishErr (by simp) (by simp) (by simp) (by simp)
+  have q14 := hq .sideGone (by simp) (by simp) (by simp) (by simp)
+  simp only [frontStep, ht, Facts.good] at q2 q3 q4 q5 q6 q7 q8 q9 q10 q11 q12 q13 q14
   obtain ⟨hs, up, down, ca, fc, sends, oks⟩ := f
   simp only at *
   unfold FrontClean
@@ -153,6 +155,7 @@ theorem front_quiescent (c : Ctx) (f : Front) (ht : c.trDone = true) (hi : FInv 
   case closingTunnel => simp at q13
   case done => simp_all
   case elsewhere => simp
+  case sideWait => simp at q14
   case joined =>
     exfalso
     cases down
@@ -211,9 +214,9 @@ theorem proxy_no_stranded (fs : List (Nat × Nat)) (s : St) (hr : Reach Facts.go
     intro f hf
     obtain ⟨i, hi, hfi⟩ := List.getElem_of_mem hf
     have hget : s.fronts[i]? = some f := by simp [List.getElem?_eq_getElem hi, hfi]
-    have : ∀ e, e ≠ .arrive → e ≠ .clientData → e ≠ .clientClose →
+    have : ∀ e, e ≠ .arrive → e ≠ .clientData → e ≠ .clientClose → e ≠ .sideArrive →
         frontStep Facts.good s.ctx f e = none := by
-      intro e e1 e2 e3
+      intro e e1 e2 e3 e4
       have := hq (.front i e) (by cases e <;> simp_all [Ev.isEnv])
       simp only [apply, hget] at this
       simpa using this
@@ -314,7 +317,7 @@ theorem reach_of_run (F : Facts) (s0 s u : St) (es : List Ev) (h0 : Reach F s0 s
 def sysFEv : List FEv :=
   [.lookup, .dialOk, .dialErr, .dialCancel, .frontGone, .upWriteOk, .upWriteErr, .downReadOk, .downReadEof,
    .downReadErr, .downWriteDone, .cancelSeen, .caStart, .caTunnelOk, .caTunnelErr, .upExit, .downExit,
-   .joinReturn, .finishOk, .finishErr]
+   .joinReturn, .finishOk, .finishErr, .dialSideOk, .sideGone, .sideCancel]
 
 def sysEv : List Ev :=
   [.trExit, .kcClose, .sfStop, .sfReturn, .sbServeReturn, .sbUnmap, .sbClose, .sbDisconnect]
@@ -431,5 +434,29 @@ theorem without_closeClosesConn : Stuck { Facts.good with closeClosesConn := fal
 /-- if the shutdown call had no timeout: the kick helper waits for ever on an endpoint that does not answer -/
 theorem without_shutdownHasTimeout : Stuck { Facts.good with shutdownHasTimeout := false } [] :=
   stuck_of_cert _ _ [.kick] (fun s => s.kc == .closing) (fun s h hc => by simp at h; exact hc.kickHelper h) (by decide)
+
+/-- side mode, if the wait for the side websocket did not watch the endpoint's transport:
+    a dial that the endpoint answered, and whose side connection never arrives because the
+    endpoint went away, waits for ever and keeps the client's connection open (the defect
+    repaired by 74c0210) -/
+theorem without_sideDialSelectsGone : Stuck { Facts.good with sideDialSelectsGone := false } [(0, 0)] :=
+  stuck_of_cert _ _ [.front 0 .arrive, .front 0 .lookup, .front 0 .dialSideOk, .sever, .trExit,
+    .sbServeReturn, .sbUnmap, .sbClose, .sbDisconnect] frontOpen frontOpen_bad (by decide)
+
+/-- … and with it, a side dial in flight when the endpoint goes away ends: a reachable
+    quiescent state in which the waiting `hostConn` has returned and closed the client's connection -/
+example : ∃ s, Reach Facts.good (init [(0, 0)]) s ∧ s.ctl = false ∧ Quiescent Facts.good s ∧
+    s.fronts.all (fun f => f.hs == .done && f.frontClosed) = true := by
+  let run : List Ev := [.front 0 .arrive, .front 0 .lookup, .front 0 .dialSideOk, .sever, .trExit,
+    .front 0 .sideGone, .sbServeReturn, .sbUnmap, .sbClose, .sbDisconnect]
+  cases h : runEvs Facts.good (init [(0, 0)]) run with
+  | none => exact absurd h (by decide)
+  | some s =>
+    have hd : (runEvs Facts.good (init [(0, 0)]) run).all
+        (fun s => s.ctl == false && quiescentB Facts.good s &&
+          s.fronts.all (fun f => f.hs == .done && f.frontClosed)) = true := by decide
+    rw [h] at hd
+    simp only [Option.all_some, Bool.and_eq_true, beq_iff_eq] at hd
+    exact ⟨s, reach_of_run _ _ _ _ _ Reach.refl h, hd.1.1, quiescentB_sound _ _ hd.1.2, hd.2⟩
 
 end PubModel.C04.Proxy
